@@ -368,6 +368,23 @@ pub fn random_run<W: Write>(tr: &mut Trace<W>, cfg: Cfg, prof: &Profile, seed: u
             let c = rng.pick(&clients).clone();
             let e = if rng.chance(1, 2) { rng.pick(&ents).clone() } else { "none".to_string() };
             next_id += 1;
+            if prof.sess && rng.chance(1, 12) {
+                // a client event is already in the server's receive queue when its sender disconnects
+                let ci = sim.ci(&c);
+                if sim.clients[ci].entity.is_some() {
+                    tr.step(&mut sim, "EmitC", json!({"c": c, "t": "COrd", "id": next_id, "e": "none"}));
+                    tr.step(&mut sim, "CliFrame", json!({"c": c, "dt": 0}));
+                    tr.step(&mut sim, "DeliverEvC", json!({"c": c, "t": "COrd", "pos": 0}));
+                    while sim.channel_len(&c, "c2s", CH_ACK) > 0 {
+                        tr.step(&mut sim, "DeliverAck", json!({"c": c}));
+                    }
+                    tr.step(&mut sim, "Disconnect", json!({"c": c}));
+                    tr.step(&mut sim, "CliFrame", json!({"c": c, "dt": 0}));
+                    tr.step(&mut sim, "SrvFrame", json!({"tick": rng.chance(1, 2), "dt": 0}));
+                    tr.step(&mut sim, "Connect", json!({"c": c}));
+                    continue;
+                }
+            }
             if rng.chance(1, 6) {
                 // an event overtakes the update message of its tick and is queued on the client; a later
                 // event of the same type then arrives together with the delayed update message
